@@ -295,8 +295,54 @@ def work(arg):
     return u
 
 
+# ---- second family: the root rule is abstract and may yield a plain Python value (no model object at all)
+PRIM_GRAMMAR = "Value: Node | INT | Word; Node: 'n' name=ID ('{' items*=Leaf '}')?; Leaf: 'l' name=ID; Word: /w\\d/;"
+PRIM_INPUTS = {"int": "5", "word": "w7", "object": "n a { l b }", "syntax": "n a {", "empty-object": "n a"}
+
+
+def run_prim_history(kind, hist):
+    from textx import metamodel_from_str
+
+    log, ctl = [], {}
+    Node, Leaf = make_classes(kind if kind != "defaults" else "plain", log, ctl)
+    classes = (Node, Leaf)
+    originals = {c: {m: c.__dict__.get(m) for m in DUNDERS} for c in classes}
+    mm = metamodel_from_str(PRIM_GRAMMAR, classes=[Node, Leaf])
+    for i, op in enumerate(hist):
+        try:
+            m = mm.model_from_str(PRIM_INPUTS[op])
+            outcome = "loaded " + type(m).__name__
+        except Exception as e:
+            outcome = type(e).__name__
+        fp = fingerprint(classes, originals)
+        want = {"int": "loaded int", "word": "loaded str", "object": "loaded Node", "empty-object": "loaded Node", "syntax": "TextXSyntaxError"}[op]
+        bad = []
+        if outcome != want:
+            bad.append(("outcome", op, outcome))
+        if not clean(fp):
+            bad.append(("class state after load", fp))
+        if bad:
+            return False, {"kind": kind, "history": list(hist), "failed_at": i, "op": op, "outcome": outcome, "failures": bad[:3], "family": "primitive root"}
+    return True, {"kind": kind, "history": list(hist), "family": "primitive root"}
+
+
+def work_prim(arg):
+    u = Unit()
+    for kind, hist in arg:
+        with watchdog(20):
+            ok, obs = run_prim_history(kind, hist)
+        u.transitions += len(hist)
+        u.case(["primitive-root", kind, list(hist)], nontrivial=len(hist) > 1, sample=obs if len(hist) > 1 else None)
+        if not ok:
+            u.fail(["primitive-root", kind, list(hist)], {"prim": [kind, list(hist)]}, sig="primitive root %s after %s" % (obs["failures"][0][0], obs["op"]),
+                   what="primitive-root family, class kind %s, history %s: step %d (%s -> %s): %s" % (kind, list(hist), obs["failed_at"], obs["op"], obs["outcome"], str(obs["failures"][:2])[:300]))
+    return u
+
+
 def run(ctx):
     D = 2 if ctx.tier == "quick" else 3
+    ph = [(k, h) for k in ("plain", "slots", "custom") for d in range(1, D + 1) for h in itertools.product(PRIM_INPUTS, repeat=d)]
+    ctx.pmap(work_prim, [ph[i:i + 20] for i in range(0, len(ph), 20)])
     hists = [h for d in range(1, D + 1) for h in itertools.product(OPS, repeat=d)]
     units = []
     for kind in KINDS:
@@ -312,6 +358,8 @@ def run(ctx):
 
 
 def replay(p):
+    if "prim" in p:
+        return run_prim_history(p["prim"][0], tuple(p["prim"][1]))
     d = os.path.join(core.rundir(), "c14-replay")
     os.makedirs(d, exist_ok=True)
     ok, obs, fps = run_history(p["kind"], p["history"], d)
